@@ -4,7 +4,6 @@ import (
 	"fmt"
 	"go/constant"
 	"go/token"
-	"go/types"
 	"sort"
 	"strings"
 
@@ -49,6 +48,39 @@ type mlResult struct {
 	reads      int
 	why        string
 	decodeArg  string
+	ops        []string // scanner movements in order: NextToken, Read, Unread, UnreadMany
+}
+
+// every simulated scenario of the main loop, kept for the rules that are derived from the model
+type mlRun struct {
+	sc  mlScenario
+	res mlResult
+}
+
+var mlLog []mlRun
+
+// mainLoopRuns returns the scenario log (filled by OPT.chain's exhaustive enumeration).
+func (c *Ctx) mainLoopRuns() []mlRun {
+	runRule(c, "OPT.chain")
+	return mlLog
+}
+
+func (sc mlScenario) group(names map[int64]string) string {
+	switch {
+	case sc.eof:
+		return "end of input"
+	case sc.stateNil:
+		return "character without a state"
+	case sc.tokNil:
+		return "state returns no token"
+	case sc.tokEmpty:
+		return "state returns an empty token"
+	}
+	q := ""
+	if sc.isQuote {
+		q = " from the quote state"
+	}
+	return names[sc.typ] + " token" + q
 }
 
 type mlVal struct {
@@ -63,7 +95,12 @@ type mlVal struct {
 
 var optionFields = []string{"skipUnknown", "skipWhitespaces", "skipComments", "skipEof", "mergeWhitespaces", "unifyNumbers", "decodeStrings"}
 
-func (c *Ctx) simulateMainLoop(fn *ssa.Function, sc mlScenario) mlResult {
+func (c *Ctx) simulateMainLoop(fn *ssa.Function, sc mlScenario) (out mlResult) {
+	defer func() { mlLog = append(mlLog, mlRun{sc, out}) }()
+	return c.simulateMainLoop1(fn, sc)
+}
+
+func (c *Ctx) simulateMainLoop1(fn *ssa.Function, sc mlScenario) mlResult {
 	res := mlResult{finalLast: sc.last}
 	env := map[ssa.Value]mlVal{}
 	last := sc.last
@@ -75,6 +112,38 @@ func (c *Ctx) simulateMainLoop(fn *ssa.Function, sc mlScenario) mlResult {
 			}
 		}
 	}
+	// natural loop of the header: blocks from which a back edge is reachable without passing the header
+	loopBlocks := map[*ssa.BasicBlock]bool{}
+	if header != nil {
+		var stack []*ssa.BasicBlock
+		for _, p := range header.Preds {
+			if header.Dominates(p) && !loopBlocks[p] {
+				loopBlocks[p] = true
+				stack = append(stack, p)
+			}
+		}
+		for len(stack) > 0 {
+			b := stack[len(stack)-1]
+			stack = stack[:len(stack)-1]
+			if b == header {
+				continue
+			}
+			for _, p := range b.Preds {
+				if !loopBlocks[p] {
+					loopBlocks[p] = true
+					stack = append(stack, p)
+				}
+			}
+		}
+		loopBlocks[header] = true
+	}
+	type mlFrame struct {
+		call *ssa.Call
+		blk  *ssa.BasicBlock
+		idx  int
+		pred *ssa.BasicBlock
+	}
+	var frames []mlFrame
 	iter := 0
 	var eval func(v ssa.Value) mlVal
 	eval = func(v ssa.Value) mlVal {
@@ -108,17 +177,15 @@ func (c *Ctx) simulateMainLoop(fn *ssa.Function, sc mlScenario) mlResult {
 	}
 	cur := fn.Blocks[0]
 	var pred *ssa.BasicBlock
-	for steps := 0; steps < 400; steps++ {
-		if cur == header {
+	startIdx := 0
+	for steps := 0; steps < 600; steps++ {
+		if cur == header && startIdx == 0 && len(frames) == 0 {
 			iter++
-			if iter > 1 {
-				res.outcome = "skip"
-				res.finalLast = last
-				return res
-			}
 		}
 		var next *ssa.BasicBlock
-		for _, in := range cur.Instrs {
+		inlined := false
+		for ii := startIdx; ii < len(cur.Instrs); ii++ {
+			in := cur.Instrs[ii]
 			switch t := in.(type) {
 			case *ssa.Phi:
 				for i, p := range cur.Preds {
@@ -199,7 +266,9 @@ func (c *Ctx) simulateMainLoop(fn *ssa.Function, sc mlScenario) mlResult {
 				}
 			case *ssa.TypeAssert:
 				x := eval(t.X)
-				if t.CommaOk && x.kind == "state" {
+				if t.CommaOk && (x.kind == "nil" || x.nilv) {
+					env[t] = mlVal{kind: "tuple", tup: []mlVal{{kind: "nil", nilv: true}, {kind: "bool", b: false}}}
+				} else if t.CommaOk && x.kind == "state" {
 					isQ := sc.isQuote && !x.b && strings.HasSuffix(t.AssertedType.String(), "IQuoteState")
 					env[t] = mlVal{kind: "tuple", tup: []mlVal{{kind: "quote"}, {kind: "bool", b: isQ}}}
 				} else {
@@ -229,14 +298,19 @@ func (c *Ctx) simulateMainLoop(fn *ssa.Function, sc mlScenario) mlResult {
 						env[t] = mlVal{kind: "char", s: "peek"}
 					case recv.kind == "scanner" && name == "Read":
 						res.reads++
+						res.ops = append(res.ops, "Read")
 						env[t] = mlVal{kind: "char", s: "read"}
+					case recv.kind == "scanner" && (name == "Unread" || name == "UnreadMany"):
+						res.ops = append(res.ops, name)
+						env[t] = mlVal{kind: "unknown"}
 					case recv.kind == "scanner" && (name == "PeekLine" || name == "PeekColumn" || name == "Line" || name == "Column"):
 						where := "before-loop"
 						if iter > 0 {
 							where = "iteration"
 						}
-						env[t] = mlVal{kind: "pos", s: name + "@" + where}
+						env[t] = mlVal{kind: "pos", s: fmt.Sprintf("%s@%s#%d", name, where, len(res.ops))}
 					case recv.kind == "state" && name == "NextToken":
+						res.ops = append(res.ops, "NextToken")
 						env[t] = mlVal{kind: "tok", tok: &mlToken{isNil: sc.tokNil, empty: sc.tokEmpty, typ: sc.typ, val: "raw", line: "state", col: "state"}}
 					case name == "DecodeString":
 						a0, a1 := eval(cc.Args[0]), eval(cc.Args[1])
@@ -248,6 +322,21 @@ func (c *Ctx) simulateMainLoop(fn *ssa.Function, sc mlScenario) mlResult {
 					continue
 				}
 				f := calleeObj(cc)
+				if g := cc.StaticCallee(); g != nil && f != nil && c.InModule(g) && g.Blocks != nil && g != fn && len(frames) < 3 &&
+					recvNamed(f) == "AbstractTokenizer" && f.Name() != "GetCharacterState" && f.Name() != "QuoteState" {
+					if _, isOpt := sc.opts[strings.ToLower(f.Name()[:1])+f.Name()[1:]]; !isOpt {
+						// a helper method of the tokenizer: executed as part of the loop body
+						for k, prm := range g.Params {
+							if k < len(cc.Args) {
+								env[prm] = eval(cc.Args[k])
+							}
+						}
+						frames = append(frames, mlFrame{t, cur, ii + 1, pred})
+						cur, pred, startIdx = g.Blocks[0], nil, 0
+						inlined = true
+						break
+					}
+				}
 				switch {
 				case f != nil && f.Name() == "IsEof" && recvNamed(f) == "_TCharValidator":
 					env[t] = mlVal{kind: "bool", b: sc.eof}
@@ -309,6 +398,25 @@ func (c *Ctx) simulateMainLoop(fn *ssa.Function, sc mlScenario) mlResult {
 			case *ssa.Jump:
 				next = cur.Succs[0]
 			case *ssa.Return:
+				if n := len(frames); n > 0 {
+					fr := frames[n-1]
+					frames = frames[:n-1]
+					switch len(t.Results) {
+					case 0:
+						env[fr.call] = mlVal{kind: "unknown"}
+					case 1:
+						env[fr.call] = eval(t.Results[0])
+					default:
+						tv := mlVal{kind: "tuple"}
+						for _, r := range t.Results {
+							tv.tup = append(tv.tup, eval(r))
+						}
+						env[fr.call] = tv
+					}
+					cur, pred, startIdx = fr.blk, fr.pred, fr.idx
+					inlined = true
+					break
+				}
 				res.finalLast = last
 				if len(t.Results) == 1 {
 					rv := eval(t.Results[0])
@@ -322,12 +430,24 @@ func (c *Ctx) simulateMainLoop(fn *ssa.Function, sc mlScenario) mlResult {
 				}
 				return res
 			}
+			if inlined {
+				break
+			}
+		}
+		if inlined {
+			continue
 		}
 		if next == nil {
 			res.outcome, res.why = "opaque", "control flow left the model"
 			return res
 		}
-		pred, cur = cur, next
+		// second pass through the loop head: staying inside the loop means the token was skipped
+		if cur == header && iter > 1 && len(frames) == 0 && loopBlocks[next] {
+			res.outcome = "skip"
+			res.finalLast = last
+			return res
+		}
+		pred, cur, startIdx = cur, next, 0
 	}
 	res.outcome, res.why = "opaque", "simulation did not terminate"
 	return res
@@ -359,6 +479,7 @@ func optSetString(o map[string]bool) string {
 }
 
 func ruleOptChain(c *Ctx) []*Obligation {
+	mlLog = nil
 	o := newObl("OPT.chain")
 	fn := c.MustFunc("tokenizers", "AbstractTokenizer", "ReadNextToken")
 	names := c.constNames("tokenizers", "")
@@ -613,61 +734,47 @@ func ruleOptNoInterference(c *Ctx) []*Obligation {
 			o.ok(key, c.Pos(st.Pos()), fmt.Sprintf("%d reachable function(s), none reads an option", len(seen)))
 		}
 	}
-	// main loop: conditions controlling scanner movement
+	// main loop: scanner movement is a function of the scanner and the state's own token only - derived
+	// from the exhaustive model of the loop: within one group of scenarios (same character/state/token
+	// situation) the sequence of scanner movements must be the same for all 128 option sets and every
+	// last-token-type
 	fn := c.MustFunc("tokenizers", "AbstractTokenizer", "ReadNextToken")
-	n := 0
-	for _, b := range fn.Blocks {
-		for _, in := range b.Instrs {
-			call, ok := in.(*ssa.Call)
-			if !ok || !call.Call.IsInvoke() {
-				continue
-			}
-			name := call.Call.Method.Name()
-			if name != "Read" && name != "NextToken" && name != "Unread" && name != "UnreadMany" {
-				continue
-			}
-			n++
-			key := fmt.Sprintf("%s#scanner-op#%s#%d", c.FuncKey(fn), name, n)
-			bad := ""
-			// all guards on the way (within the loop iteration) must be option-free and must not look at re-created tokens
-			for d := b; d != nil; d = d.Idom() {
-				for _, p := range d.Preds {
-					ifi, ok := p.Instrs[len(p.Instrs)-1].(*ssa.If)
-					if !ok || !p.Dominates(b) && p != b {
-						continue
-					}
-					if backwardSliceHas(ifi.Cond, func(v ssa.Value) bool {
-						if fa, ok := v.(*ssa.FieldAddr); ok {
-							fnm := fieldName(fa.X.Type(), fa.Field)
-							for _, f := range optionFields {
-								if fnm == f {
-									return true
-								}
-							}
-							if fnm == "LastTokenType" {
-								return true
-							}
-						}
-						if cl, ok := v.(*ssa.Call); ok {
-							if _, isNew := c.callTo(cl, "tokenizers", "", "NewToken"); isNew {
-								// the fallback's own Unknown token is created after the read; any other re-created token must not steer the scanner
-								return true
-							}
-							if cl.Call.IsInvoke() && cl.Call.Method.Name() == "DecodeString" {
-								return true
-							}
-						}
-						return false
-					}) {
-						bad = "the condition at " + c.Pos(ifi.Pos()) + " that guards this scanner movement depends on an option flag, the last token type or a re-created token"
-					}
-				}
-			}
-			if bad != "" {
-				o.bad(key, c.Pos(call.Pos()), bad+": enabling an option can change how the text is cut")
-			} else {
-				o.ok(key, c.Pos(call.Pos()), "guarded only by the scanner and the state's own token")
-			}
+	names := c.constNames("tokenizers", "")
+	type grp struct {
+		ops    string
+		n      int
+		bad    string
+		opaque string
+	}
+	groups := map[string]*grp{}
+	var order []string
+	for _, run := range c.mainLoopRuns() {
+		g := run.sc.group(names)
+		if groups[g] == nil {
+			groups[g] = &grp{ops: strings.Join(run.res.ops, " ")}
+			order = append(order, g)
+		}
+		gr := groups[g]
+		gr.n++
+		if run.res.outcome == "opaque" {
+			gr.opaque = run.res.why
+			continue
+		}
+		if ops := strings.Join(run.res.ops, " "); ops != gr.ops && gr.bad == "" {
+			gr.bad = fmt.Sprintf("with %s and last token type %s the loop moves the scanner by [%s], otherwise by [%s]", optSetString(run.sc.opts), names[run.sc.last], ops, gr.ops)
+		}
+	}
+	sort.Strings(order)
+	for _, g := range order {
+		gr := groups[g]
+		key := fmt.Sprintf("%s#scanner-moves#%s", c.FuncKey(fn), g)
+		switch {
+		case gr.opaque != "":
+			o.undecided(key, c.Pos(fn.Pos()), gr.opaque)
+		case gr.bad != "":
+			o.bad(key, c.Pos(fn.Pos()), gr.bad+": enabling an option (or the history of returned tokens) changes how the text is cut")
+		default:
+			o.ok(key, c.Pos(fn.Pos()), fmt.Sprintf("%d scenario(s): scanner movements [%s] whatever the options and the last token type", gr.n, gr.ops))
 		}
 	}
 	return o.list
@@ -678,90 +785,66 @@ func ruleOptNoInterference(c *Ctx) []*Obligation {
 func rulePosStale(c *Ctx) []*Obligation {
 	o := newObl("POS.stale")
 	fn := c.MustFunc("tokenizers", "AbstractTokenizer", "ReadNextToken")
-	var header *ssa.BasicBlock
-	for _, h := range fn.Blocks {
-		for _, p := range h.Preds {
-			if h.Dominates(p) && header == nil {
-				header = h
+	names := c.constNames("tokenizers", "")
+	// derived from the exhaustive model of the loop: every token the loop re-creates carries a
+	// position captured in the same iteration before the scanner moved, or the original token's own
+	type kind struct {
+		n          int
+		bad, undec string
+	}
+	kinds := map[string]*kind{}
+	var order []string
+	okPos := func(p string) (bool, string) {
+		switch {
+		case strings.HasPrefix(p, "token:"):
+			return true, ""
+		case strings.HasPrefix(p, "PeekLine@iteration#0"), strings.HasPrefix(p, "PeekColumn@iteration#0"):
+			return true, ""
+		case strings.Contains(p, "@before-loop"):
+			return false, "the position was captured once before the loop: after skipped tokens it is the position of an earlier token"
+		case strings.Contains(p, "@iteration#"):
+			return false, "the position is captured after the scanner has already moved in this iteration"
+		}
+		return false, "the position is not a scanner/token position (" + p + ")"
+	}
+	for _, run := range c.mainLoopRuns() {
+		if run.res.outcome == "opaque" {
+			k := "unmodelled"
+			if kinds[k] == nil {
+				kinds[k] = &kind{}
+				order = append(order, k)
+			}
+			kinds[k].undec = run.res.why
+			continue
+		}
+		if run.res.outcome != "emit" || run.res.tok == nil || !run.res.tok.fresh {
+			continue
+		}
+		tk := run.res.tok
+		k := names[tk.typ] + "(" + tk.val + ")"
+		if kinds[k] == nil {
+			kinds[k] = &kind{}
+			order = append(order, k)
+		}
+		kinds[k].n++
+		for _, p := range []string{tk.line, tk.col} {
+			if good, why := okPos(p); !good && kinds[k].bad == "" {
+				kinds[k].bad = why + " [" + run.sc.group(names) + ", " + optSetString(run.sc.opts) + "]"
 			}
 		}
 	}
-	if header == nil {
-		o.bad(c.FuncKey(fn)+"#loop", c.Pos(fn.Pos()), "main loop not found")
-		return o.list
-	}
-	inLoop := func(b *ssa.BasicBlock) bool {
-		if !header.Dominates(b) {
-			return false
-		}
-		r := reachableBlocks(b, nil)
-		return r[header]
-	}
-	// scanner-moving calls inside the loop
-	var movers []ssa.Instruction
-	for _, b := range fn.Blocks {
-		if !inLoop(b) {
-			continue
-		}
-		for _, in := range b.Instrs {
-			if call, ok := in.(*ssa.Call); ok && call.Call.IsInvoke() {
-				switch call.Call.Method.Name() {
-				case "Read", "NextToken", "Unread", "UnreadMany":
-					movers = append(movers, call)
-				}
-			}
+	sort.Strings(order)
+	for _, k := range order {
+		key := fmt.Sprintf("%s#recreated-token#%s", c.FuncKey(fn), k)
+		switch {
+		case kinds[k].undec != "":
+			o.undecided(key, c.Pos(fn.Pos()), kinds[k].undec)
+		case kinds[k].bad != "":
+			o.bad(key, c.Pos(fn.Pos()), kinds[k].bad)
+		default:
+			o.ok(key, c.Pos(fn.Pos()), fmt.Sprintf("%d scenario(s): position captured in the same iteration before any scanner movement (or taken from the original token)", kinds[k].n))
 		}
 	}
-	n := 0
-	for _, ci := range allCalls(fn) {
-		cc, ok := c.callTo(ci, "tokenizers", "", "NewToken")
-		if !ok {
-			continue
-		}
-		if !header.Dominates(ci.Block()) {
-			continue
-		}
-		n++
-		tname := "?"
-		if k, isK := constInt(cc.Args[0]); isK {
-			tname = c.constNames("tokenizers", "")[k]
-		} else {
-			tname = "same-type"
-		}
-		key := fmt.Sprintf("%s#recreated-token#%d#%s", c.FuncKey(fn), n, tname)
-		bad := ""
-		for _, arg := range []ssa.Value{cc.Args[2], cc.Args[3]} {
-			for _, leaf := range feasiblePhiLeaves(arg) {
-				call, isCall := leaf.(*ssa.Call)
-				if !isCall {
-					bad = "the position is not a scanner/token position"
-					continue
-				}
-				if call.Call.IsInvoke() && (call.Call.Method.Name() == "PeekLine" || call.Call.Method.Name() == "PeekColumn") {
-					if !inLoop(call.Block()) {
-						bad = "the position was captured once before the loop (" + c.Pos(call.Pos()) + "): after skipped tokens (`continue`) it is the position of an earlier token"
-						continue
-					}
-					for _, m := range movers {
-						if !instrDominates(call, m) {
-							bad = "the position is captured after the scanner may already have moved in this iteration"
-						}
-					}
-					continue
-				}
-				if f := calleeObj(call.Common()); f != nil && recvNamed(f) == "Token" && (f.Name() == "Line" || f.Name() == "Column") {
-					continue // the original token's own position
-				}
-				bad = "the position comes from " + call.Call.Value.Name()
-			}
-		}
-		if bad != "" {
-			o.bad(key, c.Pos(ci.Pos()), bad)
-		} else {
-			o.ok(key, c.Pos(ci.Pos()), "position captured in the same iteration before any scanner movement (or taken from the original token)")
-		}
-	}
-	_ = types.Typ
 	return o.list
 }
 
